@@ -188,6 +188,9 @@ class BaseComponent(Manager):
             self.parent = self
 
         self._updateRoot(self)
+        # Root of its own tree again: whatever the handler cache holds dates from
+        # before this component was registered elsewhere.
+        self._cache_needs_refresh = True
         return self
 
     def _updateRoot(self, root):
